@@ -173,12 +173,12 @@ func TestVerifMetricsConcurrent(t *testing.T) {
 			together(cfg.G, func(g int, lg func(map[string]any)) {
 				c := &vmConn{id: int(nextID.Add(1)), ip: bip}
 				if g%2 == 0 {
-					c.udp = m.AddUDPNatEntry(vfAddrF(bip, g%3+1, true), vfKey(bkey))
+					c.udp = m.AddUDPNatEntry(vfAddrF(bip, g%3+1, true), vfPlainKey(bkey))
 					lg(map[string]any{"ev": "NatAdd", "c": c.id, "ip": bip, "key": bkey, "f": g%3 + 1})
 				} else {
 					c.tcp = m.AddOpenTCPConnection(&vfTCPConn{local: vfListeners[g%2], remote: vfAddrF(bip, g%3+1, false)})
 					lg(map[string]any{"ev": "Open", "c": c.id, "ip": bip, "f": g%3 + 1})
-					c.tcp.AddAuthenticated(vfKey(bkey))
+					c.tcp.AddAuthenticated(vfPlainKey(bkey))
 					lg(map[string]any{"ev": "Auth", "c": c.id, "key": bkey})
 				}
 				bc[g] = c
@@ -257,7 +257,7 @@ func TestVerifMetricsConcurrent(t *testing.T) {
 						c := &vmConn{id: int(nextID.Add(1)), ip: ip}
 						m.AddCipherSearch("udp", true, time.Duration(n)*time.Millisecond)
 						f := rng.Intn(3) + 1
-						c.udp = m.AddUDPNatEntry(vfAddrF(ip, f, true), vfKey(k))
+						c.udp = m.AddUDPNatEntry(vfAddrF(ip, f, true), vfPlainKey(k))
 						open[g] = append(open[g], c)
 						lg(map[string]any{"ev": "NatAdd", "c": c.id, "ip": ip, "key": k, "f": f})
 					default:
@@ -278,7 +278,7 @@ func TestVerifMetricsConcurrent(t *testing.T) {
 						case !c.authd && r < 7:
 							k := rng.Intn(cfg.NK) + 1
 							m.AddCipherSearch("tcp", true, time.Duration(n)*time.Millisecond)
-							c.tcp.AddAuthenticated(vfKey(k))
+							c.tcp.AddAuthenticated(vfPlainKey(k))
 							c.authd = true
 							lg(map[string]any{"ev": "Auth", "c": c.id, "key": k})
 						case !c.authd && r < 8:
